@@ -33,6 +33,7 @@ MDATTR = "urn:oasis:names:tc:SAML:metadata:attribute"
 SAMLP = "urn:oasis:names:tc:SAML:2.0:protocol"
 XMLNS = "http://www.w3.org/XML/1998/namespace"
 ENTITY_CATEGORY = "http://macedir.org/entity-category"
+ENTITY_CATEGORY_SUPPORT = "http://macedir.org/entity-category-support"
 B = {"redirect": fed.BINDING_HTTP_REDIRECT, "post": fed.BINDING_HTTP_POST, "soap": fed.BINDING_SOAP}
 
 ROLE_TAG = {"idpsso": "IDPSSODescriptor", "spsso": "SPSSODescriptor", "attribute_authority": "AttributeAuthorityDescriptor"}
@@ -54,17 +55,30 @@ def ts(epoch):
     return wire.fmt_ts(epoch)
 
 
+def entity_attrs_of(e):
+    """The entity attributes a document declares for e: attribute name -> values (declaration order)."""
+    d = {}
+    if e.get("categories"):
+        d[ENTITY_CATEGORY] = list(e["categories"])
+    if e.get("categories_support"):
+        d[ENTITY_CATEGORY_SUPPORT] = list(e["categories_support"])
+    for name, vals in (e.get("other_attrs") or {}).items():
+        d[name] = list(vals)
+    return d
+
+
 def build_entity(e, now):
     ed = ET.Element(q(MD, "EntityDescriptor"), {"entityID": e["id"]})
     if e.get("valid_until") is not None:
         ed.set("validUntil", ts(now + e["valid_until"]))
-    if e.get("categories"):
+    if entity_attrs_of(e):
         ext = ET.SubElement(ed, q(MD, "Extensions"))
         ea = ET.SubElement(ext, q(MDATTR, "EntityAttributes"))
-        at = ET.SubElement(ea, q(SAML, "Attribute"), {"Name": ENTITY_CATEGORY,
-                                                      "NameFormat": "urn:oasis:names:tc:SAML:2.0:attrname-format:uri"})
-        for c in e["categories"]:
-            ET.SubElement(at, q(SAML, "AttributeValue")).text = c
+        for name, vals in entity_attrs_of(e).items():
+            at = ET.SubElement(ea, q(SAML, "Attribute"), {"Name": name,
+                                                          "NameFormat": "urn:oasis:names:tc:SAML:2.0:attrname-format:uri"})
+            for c in vals:
+                ET.SubElement(at, q(SAML, "AttributeValue")).text = c
     for role in ("idpsso", "spsso", "attribute_authority"):
         rd = e["roles"].get(role)
         if rd is None:
@@ -412,7 +426,13 @@ class MdSim(object):
                 got = st.certs(eid, ev.get("descriptor", "any"), ev["use"])
                 out = ("ok", ["".join(c.split()) for c in got])
             elif kind == "categories":
-                out = ("ok", list(st.entity_categories(eid)))
+                what = ev.get("what", "categories")
+                if what == "support":
+                    out = ("ok", list(st.supported_entity_categories(eid)))
+                elif what == "all":
+                    out = ("ok", {k: list(v) for k, v in st.entity_attributes(eid).items()})
+                else:
+                    out = ("ok", list(st.entity_categories(eid)))
             elif kind == "requirement":
                 got = st.attribute_requirement(eid, ev.get("index"))
                 out = ("ok", None if got is None else
@@ -518,9 +538,16 @@ class MdSim(object):
                 self.viol(i, "categories-for-unknown-entity", repr(out[1]))
             return
         self.count("oracle.categories.exact")
-        if not any(sorted(e.get("categories") or []) == sorted(out[1]) for e in hs):
-            self.viol(i, "categories-differ", "entity=%s got=%r declared(one of)=%r" % (
-                ev["entity"], out[1], [e.get("categories") for e in hs]))
+        what = ev.get("what", "categories")
+        if what == "all":
+            want = [{k: sorted(v) for k, v in entity_attrs_of(e).items()} for e in hs]
+            got = {k: sorted(v) for k, v in out[1].items()}
+        else:
+            key = "categories_support" if what == "support" else "categories"
+            want = [sorted(e.get(key) or []) for e in hs]
+            got = sorted(out[1])
+        if got not in want:
+            self.viol(i, "categories-differ", "entity=%s %s got=%r declared(one of)=%r" % (ev["entity"], what, got, want))
 
     def judge_requirement(self, ev, i, hs, out):
         if out[0] != "ok":
@@ -675,6 +702,13 @@ def gen_entity(r, idx, dup_of=None):
         e["categories"] = r.sample(["http://refeds.org/category/research-and-scholarship",
                                     "http://www.geant.net/uri/dataprotection-code-of-conduct/v1",
                                     "http://example.org/cat/x"], r.randrange(1, 3))
+    if r.chance(0.25):
+        e["categories_support"] = r.sample(["http://refeds.org/category/research-and-scholarship",
+                                            "http://www.geant.net/uri/dataprotection-code-of-conduct/v1",
+                                            "http://example.org/cat/y"], r.randrange(1, 3))
+    if r.chance(0.15):
+        e["other_attrs"] = {"urn:oasis:names:tc:SAML:attribute:assurance-certification":
+                            [r.pick(["https://refeds.org/sirtfi", "https://example.org/loa2"])]}
     return e
 
 
@@ -748,8 +782,10 @@ def generate(seed, prop, tier):
             evs.append({"k": "roundtrip", "spec": spec})
         else:
             eid = r.pick(pool_ids) if r.chance(0.85) else "https://unknown%d.md.example/entity" % r.randrange(3)
-            kind = r.weighted([("service", 6), ("certs", 3), ("categories", 1), ("requirement", 2), ("providers", 1)])
+            kind = r.weighted([("service", 6), ("certs", 3), ("categories", 2), ("requirement", 2), ("providers", 1)])
             ev = {"k": "lookup", "kind": kind, "entity": eid}
+            if kind == "categories":
+                ev["what"] = r.pick(["categories", "support", "all"])
             if kind == "service":
                 role = r.pick(["idpsso", "spsso", "attribute_authority"])
                 svc = r.pick(ROLE_SERVICES[role])
